@@ -194,7 +194,7 @@ func (p *parser) parseStmt(vars map[string]bool) (Stmt, error) {
 	case "CASE":
 		p.next()
 		if !p.isKw("WHEN") {
-			if p.isOp(";") || p.isKw("END") || p.atEOF() {
+			if p.isOp(";") || p.isKw("END") || p.isKw("ELSE") || p.atEOF() {
 				return nil, p.syntaxErr(p.peek(), "CASE without WHEN")
 			}
 			return nil, p.unsupported(t, "CASE with an operand (simple CASE) is not modelled")
